@@ -590,8 +590,10 @@ def run(ctx):
         pmodels.append((M, states))
         pinp += MM.to_lines(M, states)
         pjobs.append({"op": "pipeline", "xml": MM.to_xml(M), "states": states})
-    half = (len(pjobs) + 1) // 2
-    fut_pipe = [pool.submit(run_mjx, ctx, pjobs[:half], 3000), pool.submit(run_mjx, ctx, pjobs[half:], 3000)]
+    # one MJX process per 8 models, three at a time: every jitted model keeps executable sections mapped, and a process
+    # that compiles a few dozen distinct models runs out of mappable memory ("LLVM ERROR: Unable to allocate section memory")
+    pipe_pool = ThreadPoolExecutor(max_workers=3)
+    fut_pipe = [pipe_pool.submit(run_mjx, ctx, pjobs[k:k + 8], 3000) for k in range(0, len(pjobs), 8)]
     rc, pout, perr = ctx.run(exe43, pinp, timeout=600)
     pc = []
     if rc != 0:
